@@ -310,7 +310,17 @@ func oneRun(w *mon.W, c *mon.Case) {
 	G := 2 + r.Intn(15)
 	M := r.Int(10, 20, 30)
 	atomic.StoreUint64(&ymode, r.U64())
-	opts := &http1.ClientOptions{Dialer: d, MaxConns: maxConns, ReadTimeout: readTimeout, MaxIdleConnDuration: 30 * time.Second, ResponseBodyStream: stream}
+	// in a quarter of the runs idle connections expire quickly, so the pool's cleaner
+	// goroutine works while calls are in flight; in some, connections also have a short
+	// maximum lifetime
+	idleDur, connDur := 30*time.Second, time.Duration(0)
+	if r.Chance(4) {
+		idleDur = time.Duration(r.Int(5, 20, 60)) * time.Millisecond
+		if r.Bool() {
+			connDur = time.Duration(r.Int(20, 50)) * time.Millisecond
+		}
+	}
+	opts := &http1.ClientOptions{Dialer: d, MaxConns: maxConns, ReadTimeout: readTimeout, MaxIdleConnDuration: idleDur, MaxConnDuration: connDur, ResponseBodyStream: stream}
 	if wait {
 		opts.MaxConnWaitTimeout = time.Duration(r.Int(20, 50, 200)) * time.Millisecond
 	}
@@ -318,7 +328,10 @@ func oneRun(w *mon.W, c *mon.Case) {
 	hc.Addr = "peer:80"
 	d.hc = hc
 	d.maxConns = maxConns
-	cfg := fmt.Sprintf("maxConns=%d wait=%v(%v) stream=%v G=%d M=%d dialFail=1/%d", maxConns, wait, opts.MaxConnWaitTimeout, stream, G, M, d.dialFail)
+	cfg := fmt.Sprintf("maxConns=%d wait=%v(%v) stream=%v idle=%v life=%v G=%d M=%d dialFail=1/%d", maxConns, wait, opts.MaxConnWaitTimeout, stream, idleDur, connDur, G, M, d.dialFail)
+	if idleDur < time.Second {
+		w.Count("runs_with_expiring_idle_connections", 1)
+	}
 	c.Detail = func() interface{} { return map[string]interface{}{"config": cfg} }
 
 	// gauge sampler
@@ -415,6 +428,9 @@ func oneRun(w *mon.W, c *mon.Case) {
 				recs[g] = append(recs[g], rec)
 				if gr.Chance(4) {
 					time.Sleep(time.Duration(gr.Intn(300)) * time.Microsecond)
+				}
+				if idleDur < time.Second && gr.Chance(8) {
+					time.Sleep(idleDur + idleDur/2) // let connections expire between calls
 				}
 			}
 		}(g)
